@@ -879,8 +879,8 @@ TRUSTED = [
     "identity/aliasing of Property objects, logging, parentRule/validating are not modelled",
     "opaque: property values (atoms + verdict of the value parser), priority spellings (none/important/unparsable); for "
     "cssText assignment the block split is the model of C04 (Skeleton.decl_block over Tokenizer.tokenize), opaque is "
-    "only what Property.cssText / CSSUnknownRule.cssText make of ONE run (digest table keyed by the run text, given by "
-    "construction of the generated texts); the reference oracle uses well-formed values only",
+    "only the VALUE run of a declaration and CSSUnknownRule.cssText of one at-rule run (table keyed by their text); the "
+    "declaration parse itself (Property.cssText: name / value / priority split, name and priority tokens) is in the model; the reference oracle uses well-formed values only",
 ]
 ASSUME = [
     "Print Assumptions for every theorem of props/C11.v: see coverage.print_assumptions",
